@@ -115,7 +115,7 @@ class C13:
         onbound = None
         cand = [k for k in free if priors[k]['ctor'] == 'uniform'
                 and k != excluded]
-        if start != 'truth' and cand and rng.random() < 0.25:
+        if start != 'truth' and cand and rng.random() < 0.4:
             onbound = rng.choice(cand)
             a_ = priors[onbound]['args']
             side = 'hi' if a_['guess'] > truth[onbound] else 'lo'
